@@ -417,6 +417,11 @@ func genC07(t *rapid.T) any {
 			if rapid.Bool().Draw(t, "correlated") {
 				// correlated with the outer row through `<-.col`: standalone form gets the row's value as a literal
 				sub = "SELECT " + sc.t2c + " FROM %s WHERE " + sc.t2c + " " + rapid.SampledFrom([]string{"=", "<=", ">", "!="}).Draw(t, "corrop") + " %s"
+				switch rapid.IntRange(0, 2).Draw(t, "corrplace") {
+				case 1:
+					// the back reference sits in the select list of the sub query (inside a comparison), not in its WHERE
+					sub = "SELECT CASE WHEN " + sc.t2c + " " + rapid.SampledFrom([]string{">", "<=", "="}).Draw(t, "corrcaseop") + " %[2]s THEN 1 ELSE 0 END AS z, " + sc.t2c + " FROM %[1]s"
+				}
 				c.Sub = fmt.Sprintf(sub, "t2", "{OUTER:"+sc.k+"}")
 				c.SubOnDoc = true
 				c.Outer = fmt.Sprintf("SELECT %s, (%s) AS sb FROM t", sc.k, fmt.Sprintf(sub, "`<-t2`", "`<-."+sc.k+"`"))
